@@ -1886,3 +1886,7 @@ mod tests {
         assert!(err.contains("Cannot compare RunEndEncoded arrays"));
     }
 }
+
+#[cfg(kani)]
+#[path = "/verif/kani/arrow-cmp/lib.rs"]
+mod verif_kani;
